@@ -9,13 +9,21 @@ hist/*  : a history of n operations on the real OutgoingRIB.  The KIND of every 
           dicts probe by symbolic equality and z3 decides which operands alias (rib kit).  After the history the
           queue is drained and three tables are compared: what the peer holds after applying every emitted message in
           order (PeerTable), what ExaBGP reports (cached_routes()), what the operations intended (ghost).
+step/*  : inductive step.  An ARBITRARY state of k resident prefixes (per prefix: what the peer holds, what the cache
+          reports, announce pending, withdraw pending; the creation order of the attribute buckets) that satisfies the
+          representation invariant I (kits.rib.rep_invariant) and the convergence relation R (pending applied to the
+          peer table = cached_routes()), then ONE operation with a symbolic operand: I and R must hold again.
+          Together with the empty RIB as base case: convergence for histories of any length (operations arriving
+          while no generator is live; the live-generator interleavings are the hist/* units').
 """
 from __future__ import annotations
 
 from sx.run import Unit
 
 from kits import rib as K
-from kits.rib import Pool, PeerTable, Table, Sender, mk_route, mk_rib, cached_table, diff, same, row_of_route
+from kits.rib import (Pool, PeerTable, Table, Sender, mk_route, mk_nlri, mk_rib, cached_table, diff, same, row_of_route,
+                      rep_invariant, plant)
+from sx.core import sx_eq, s_not
 
 import exabgp.rib as ribpkg
 
@@ -23,7 +31,8 @@ ID = 'C04'
 LEVEL = 'model_checking'
 TECHNIQUE = ('symbolic execution of the real OutgoingRIB/Cache (z3): operation kinds enumerated, route prefixes symbolic bytes so '
              'that the solver decides aliasing inside ExaBGP\'s own dicts; peer-table oracle applied to every emitted '
-             'UpdateCollection/RouteRefresh, compared with cached_routes() and with a ghost of the intended table')
+             'UpdateCollection/RouteRefresh, compared with cached_routes() and with a ghost of the intended table; '
+             'bounded histories + an inductive step over a symbolic pre-state under a representation invariant')
 ASSUMPTIONS = [
     'logging (log.debug, lazymsg) in exabgp.rib.outgoing has an empty body',
     'sender model = Peer._send_route_updates: at most one live updates() generator, created only when rib.pending(), '
@@ -37,11 +46,19 @@ ASSUMPTIONS = [
     're-advertised since BoRR); UpdateCollection -> wire messages is C01/C09\'s business',
     'adj-rib-out cache enabled (the table ExaBGP reports); IPv4 unicast, no ADD-PATH, no paths_limit',
     'every route operand carries a symbolic prefix byte (hash_const soundness rule)',
+    'step/*: representation invariant I1-I5 of kits.rib.rep_invariant + relation R (per resident prefix: cache = pending '
+    'applied to the peer\'s entry); pre-states are planted into the private dicts of a real OutgoingRIB; resident prefixes '
+    'pairwise distinct; no live generator and no queued refresh in the pre-state',
 ]
 BOUNDS = {
-    'quick': {'hist': 'n<=3 operations over the full alphabet (14 kinds incl. 3 attribute sets), n=4 over '
-                      '{announce x3, withdraw, send-1, flush}; prefix octet symbolic in 0..2; grouped and ungrouped'},
-    'thorough': {'hist': 'n<=4 full alphabet, n<=6 over the core alphabet; symbolic mask byte as well in one unit family'},
+    'quick': {'hist': 'n<=3 operations over the full alphabet (13 kinds incl. 3 attribute sets) after one watchdog route '
+                      'registered announced or withdrawn; n=4 over {announce x3, withdraw, send-1, flush} grouped and '
+                      'ungrouped; n=3 with parser-shaped attributes (NEXT_HOP inside the collection); prefix octet '
+                      'symbolic in 0..2 (0..3 for n=4)',
+              'step': 'k=1 resident prefix x 8 operations; k=2 x {announce x/y, withdraw}; 24 states per prefix, both bucket orders'},
+    'thorough': {'hist': 'adds n=4 over the full alphabet, n=5 over the core alphabet (grouped and ungrouped), n=6 over '
+                         '{announce x/y, withdraw, send-1} with 2 prefixes, n=4 with a symbolic mask byte (/23,/24)',
+                 'step': 'k=2 x all 8 operations'},
 }
 OUTSIDE = [
     'paths_limit filtering (ADD-PATH send limits) inside updates()',
@@ -60,6 +77,7 @@ def reset():
 
 CORE = ('announce:x', 'announce:y', 'announce:x2', 'withdraw', 'send1', 'flush')
 FULL = CORE + ('resend', 'resend-enh', 'restart', 'withdraw-all', 'clear', 'wd-announce', 'wd-withdraw')
+MINI = ('announce:x', 'announce:y', 'withdraw', 'send1')
 WD = 'w1'
 
 
@@ -91,7 +109,7 @@ class Ghost:
 
 
 def h_hist(ctx, n, alphabet, dom=3, grouped=False, prefix=(), nwd=0, masks=(24,), pool_names=('x', 'y', 'x2')):
-    """prefix: the kinds of the first operations are fixed by the unit (units partition the histories)."""
+    """prefix: the kinds (a kind or a tuple of kinds) of the first operations are fixed by the unit: units partition the histories."""
     pool = Pool(pool_names)
     sel_of = {('announce:' + nm): i for i, nm in enumerate(pool.names)}
     rib = mk_rib(True)
@@ -116,71 +134,77 @@ def h_hist(ctx, n, alphabet, dom=3, grouped=False, prefix=(), nwd=0, masks=(24,)
             ghost.announce(r)
         kinds.append('wd-reg-' if withdrawn else 'wd-reg+')
 
-    for i in range(n):
-        kind = prefix[i] if i < len(prefix) else ctx.pick('op%d' % i, alphabet)
-        kinds.append(kind)
-        if tx.live:
-            ctx.cover('op-while-generator-live')
-        if kind.startswith('announce:'):
-            r = mk_route(ctx, 'p%d' % i, dom, pool, sel_of[kind], masks)
-            prev = ghost.t.get(r.nlri.index())
-            if prev is not None:
-                ctx.cover('alias')
-                if prev[1] != r.attributes.index():
-                    ctx.cover('announce-changed-attributes')
-                elif not same(prev[2], r.nexthop.index()):
-                    ctx.cover('announce-changed-nexthop')
-            rib.add_to_rib(r)
-            ghost.announce(r)
-        elif kind == 'withdraw':
-            r = mk_route(ctx, 'p%d' % i, dom, pool, 0, masks)
-            if ghost.t.get(r.nlri.index()) is not None:
-                ctx.cover('withdraw-present')
-            rib.del_from_rib(r)
-            ghost.withdraw_key(r.nlri.index())
-        elif kind == 'send1':
-            if tx.send(1):
-                ctx.cover('sent-one')
-        elif kind == 'flush':
-            tx.send(None)
-        elif kind == 'resend':
-            rib.resend(False)
-            ctx.cover('refresh')
-        elif kind == 'resend-enh':
-            rib.resend(True)
-            ctx.cover('refresh')
-        elif kind == 'restart':
+    try:
+        for i in range(n):
+            want = prefix[i] if i < len(prefix) else alphabet
+            kind = want if isinstance(want, str) else ctx.pick('op%d' % i, want)
+            kinds.append(kind)
             if tx.live:
-                ctx.cover('generator-abandoned')
-            tx.abandon()
-            peer.session_reset()
-            rib.reset()
-            rib.replace_restart([], [])
-        elif kind == 'withdraw-all':
-            rib.withdraw()
-            ghost.withdraw_all()
-        elif kind == 'clear':
-            tx.abandon()
-            peer.session_reset()
-            rib.clear()
-            ghost.clear()
-        elif kind == 'wd-announce':
-            rib.announce_watchdog(WD)
-            for row in list(ghost.minus.rows):
-                ghost.announce(row[1])
-                ghost.plus.set(row[0], row[1], None)
-            ghost.minus.clear()
-        elif kind == 'wd-withdraw':
-            rib.withdraw_watchdog(WD)
-            for row in list(ghost.plus.rows):
-                ghost.withdraw_key(row[0])
-                ghost.minus.set(row[0], row[1], None)
-            ghost.plus.clear()
-        else:
-            raise AssertionError(kind)
+                ctx.cover('op-while-generator-live')
+            if kind.startswith('announce:'):
+                r = mk_route(ctx, 'p%d' % i, dom, pool, sel_of[kind], masks)
+                prev = ghost.t.get(r.nlri.index())
+                if prev is not None:
+                    ctx.cover('alias')
+                    if prev[1] != r.attributes.index():
+                        ctx.cover('announce-changed-attributes')
+                    elif not same(prev[2], r.nexthop.index()):
+                        ctx.cover('announce-changed-nexthop')
+                rib.add_to_rib(r)
+                ghost.announce(r)
+            elif kind == 'withdraw':
+                r = mk_route(ctx, 'p%d' % i, dom, pool, 0, masks)
+                if ghost.t.get(r.nlri.index()) is not None:
+                    ctx.cover('withdraw-present')
+                rib.del_from_rib(r)
+                ghost.withdraw_key(r.nlri.index())
+            elif kind == 'send1':
+                if tx.send(1):
+                    ctx.cover('sent-one')
+            elif kind == 'flush':
+                tx.send(None)
+            elif kind == 'resend':
+                rib.resend(False)
+                ctx.cover('refresh')
+            elif kind == 'resend-enh':
+                rib.resend(True)
+                ctx.cover('refresh')
+            elif kind == 'restart':
+                if tx.live:
+                    ctx.cover('generator-abandoned')
+                tx.abandon()
+                peer.session_reset()
+                rib.reset()
+                rib.replace_restart([], [])
+            elif kind == 'withdraw-all':
+                rib.withdraw()
+                ghost.withdraw_all()
+            elif kind == 'clear':
+                tx.abandon()
+                peer.session_reset()
+                rib.clear()
+                ghost.clear()
+            elif kind == 'wd-announce':
+                rib.announce_watchdog(WD)
+                for row in list(ghost.minus.rows):
+                    ghost.announce(row[1])
+                    ghost.plus.set(row[0], row[1], None)
+                ghost.minus.clear()
+            elif kind == 'wd-withdraw':
+                rib.withdraw_watchdog(WD)
+                for row in list(ghost.plus.rows):
+                    ghost.withdraw_key(row[0])
+                    ghost.minus.set(row[0], row[1], None)
+                ghost.plus.clear()
+            else:
+                raise AssertionError(kind)
 
-    # ---- the outgoing queue drains
-    tx.send(None)
+        # ---- the outgoing queue drains
+        tx.send(None)
+    except Exception as exc:  # the RIB raised, or the queue never drains: the history cannot converge
+        crashed = type(exc).__name__
+        ctx.check('rib-operations-do-not-fail', False, sig='C04:hist:exception:%s' % crashed, info={'ops': kinds, 'exception': repr(exc)})
+        return ['-'.join(k.split(':')[0] for k in kinds), 'exception', crashed]
     ctx.check('queue-drained', not rib.pending() and not tx.live, sig='C04:hist:queue-not-drained')
     cached = cached_table(rib)
     hist = '-'.join(k.split(':')[0] for k in kinds)
@@ -220,6 +244,102 @@ def h_hist(ctx, n, alphabet, dom=3, grouped=False, prefix=(), nwd=0, masks=(24,)
     return [hist, len(peer), len(cached), len(ghost.t)]
 
 
+# ----------------------------------------------------------------------------- inductive step
+
+STEP_OPS = ('announce:x', 'announce:y', 'announce:x2', 'withdraw', 'withdraw-all', 'resend-enh', 'restart', 'flush')
+
+
+def slot_states(peer_vals=(None, 0, 1), cache_vals=(0, 1, 2)):
+    """(peer attribute selector|None, cache selector|None, announce pending, withdraw pending) satisfying R:
+    applying what is pending to what the peer holds yields what the cache reports."""
+    out = []
+    for pv in peer_vals:
+        out.append((pv, pv, False, False))        # nothing pending: the peer holds what the cache reports
+        out.append((pv, None, False, True))       # withdrawn, withdraw not sent yet
+        for cv in cache_vals:
+            out.append((pv, cv, True, False))     # (re)announced, not sent yet
+            out.append((pv, cv, True, True))      # withdrawn then announced again, neither sent
+    return out
+
+
+def h_step(ctx, k, ops, dom=3, grouped=False):
+    """One operation from an ARBITRARY state of k resident prefixes that satisfies the representation invariant I
+    (kits.rib.rep_invariant) and the convergence relation R (pending applied to the peer table = cached_routes());
+    obligation: I and R hold again.  With the base case (the empty RIB) this is convergence for histories of any
+    length made of operations that arrive while no generator is live."""
+    pool = Pool(('x', 'y', 'x2'))
+    rib = mk_rib(True)
+    peer = PeerTable()
+    states = slot_states()
+    nlris = []
+    desc = []
+    # the order in which the attribute buckets were created is part of the state (dicts are ordered)
+    y_first = bool(ctx.bool('bucket-y-created-first'))
+    if y_first:
+        a_y = pool.entry(1)[0]
+        rib._new_attr_af_nlri[a_y.index()] = {K.FAMILY: {}}
+        rib._new_attribute[a_y.index()] = a_y
+    for i in range(k):
+        n = mk_nlri(ctx, 's%d.p' % i, dom)
+        for m in nlris:
+            ctx.assume(s_not(sx_eq(n.index(), m.index())), 'step: resident prefixes are pairwise distinct (one entry per NLRI in every dict)')
+        nlris.append(n)
+        pv, cv, pa, pw = ctx.pick('s%d.state' % i, states)
+        plant(rib, peer, n, None if pv is None else pool.entry(pv), None if cv is None else pool.entry(cv), pa, pw)
+        desc.append([pv, cv, pa, pw])
+        if pa:
+            ctx.cover('pre-pending-announce')
+        if pw:
+            ctx.cover('pre-pending-withdraw')
+    pre_bad = rep_invariant(rib)
+    ctx.check('pre-state-satisfies-I', not pre_bad, sig='C04:step:harness-built-a-state-outside-I', info={'bad': pre_bad, 'slots': desc})
+    ghost = Ghost()
+    ghost.t = Table(cached_table(rib).rows)   # under R the intended table is the cached one
+
+    kind = ctx.pick('op', ops)
+    tx = Sender(rib, peer, grouped)
+    try:
+        if kind.startswith('announce:'):
+            sel = pool.names.index(kind.split(':')[1])
+            r = mk_route(ctx, 'q', dom, pool, sel)
+            if any(same(r.nlri.index(), m.index()) for m in nlris):
+                ctx.cover('operand-aliases-resident')
+            rib.add_to_rib(r)
+            ghost.announce(r)
+        elif kind == 'withdraw':
+            r = mk_route(ctx, 'q', dom, pool, 0)
+            if any(same(r.nlri.index(), m.index()) for m in nlris):
+                ctx.cover('operand-aliases-resident')
+            rib.del_from_rib(r)
+            ghost.withdraw_key(r.nlri.index())
+        elif kind == 'withdraw-all':
+            rib.withdraw()
+            ghost.withdraw_all()
+        elif kind == 'resend-enh':
+            rib.resend(True)
+        elif kind == 'restart':
+            peer.session_reset()
+            rib.reset()
+            rib.replace_restart([], [])
+        elif kind == 'flush':
+            pass
+        post_bad = rep_invariant(rib)
+        info = {'op': kind, 'slots': desc, 'bucket_y_first': y_first, 'violated': post_bad}
+        cause = 'stale-pending-entry' if 'I1-superseded-entry-left-in-bucket' in post_bad else 'step'
+        ctx.check('I-preserved', not post_bad, sig='C04:%s:invariant-not-preserved-by-%s' % (cause, kind.split(':')[0]), info=info)
+        tx.send(None)
+    except Exception as exc:
+        ctx.check('rib-operations-do-not-fail', False, sig='C04:step:exception:%s' % type(exc).__name__, info={'op': kind, 'slots': desc, 'exception': repr(exc)})
+        return [kind, 'exception']
+    cached = cached_table(rib)
+    info = {'op': kind, 'slots': desc, 'bucket_y_first': y_first, 'peer': peer.render(), 'adj-rib-out': cached.render(), 'intended': ghost.t.render()}
+    ctx.check('R-preserved/peer-equals-adj-rib-out', not diff(peer, cached) and not cached.duplicate_keys,
+              sig='C04:%s:step:peer-differs-from-adj-rib-out-after-%s' % (cause, kind.split(':')[0]), info=info)
+    ctx.check('R-preserved/adj-rib-out-equals-intent', not diff(cached, ghost.t), sig='C04:%s:step:adj-rib-out-differs-from-intent-after-%s' % (cause, kind.split(':')[0]), info=info)
+    ctx.note('class', kind)
+    return [kind, len(peer), len(cached)]
+
+
 # ----------------------------------------------------------------------------- units
 
 
@@ -247,15 +367,32 @@ def units(tier):
             us.append(_u('hist/core/n4/%s/%s' % ('grouped' if grouped else 'single', _short(k)),
                          live if k.startswith('announce') else (),
                          n=4, alphabet=CORE, prefix=(k,), grouped=grouped, dom=4, weight=40))
+    # inductive step: one operation from an arbitrary state satisfying I and R
+    smust = ('pre-pending-announce', 'pre-pending-withdraw', 'operand-aliases-resident')
+    us.append(Unit('step/k1', lambda ctx: h_step(ctx, 1, STEP_OPS), must_cover=smust, hash_const=True, reset=reset, weight=15))
+    groups = [('announce', ('announce:x', 'announce:y', 'announce:x2') if th else ('announce:x', 'announce:y')), ('withdraw', ('withdraw',))]
     if th:
+        groups.append(('others', ('withdraw-all', 'resend-enh', 'restart', 'flush')))
+    for gname, ops in groups:
+        us.append(Unit('step/k2/%s' % gname, lambda ctx, ops=ops: h_step(ctx, 2, ops), hash_const=True, reset=reset,
+                       must_cover=smust if gname != 'others' else smust[:2], max_paths=400000, max_seconds=1100, weight=60))
+    us.append(_u('hist/parser-shaped/n3', ('alias',), n=3, alphabet=('announce:x', 'announce:z', 'withdraw', 'send1', 'flush'),
+                 pool_names=('x', 'z'), weight=5))
+    if th:
+        # NOTE keep the number of units small: sx.main recycles workers (max_tasks_per_child) and Python 3.12.1's
+        # ProcessPoolExecutor can hang when it does (gh-115634)
+        rest = tuple(k for k in FULL if k not in CORE)
         for k in FULL:
-            for k2 in FULL:
-                us.append(_u('hist/full/n4/%s/%s' % (_short(k), _short(k2)), (), n=4, alphabet=FULL, prefix=(k, k2), nwd=1, weight=30))
+            if k.startswith('announce') or k == 'withdraw':
+                us.append(_u('hist/full/n4/%s/core' % _short(k), (), n=4, alphabet=FULL, prefix=(k, CORE), nwd=1, weight=110))
+                us.append(_u('hist/full/n4/%s/rest' % _short(k), (), n=4, alphabet=FULL, prefix=(k, rest), nwd=1, weight=100))
+            else:
+                us.append(_u('hist/full/n4/%s' % _short(k), (), n=4, alphabet=FULL, prefix=(k,), nwd=1, weight=90))
         for k in CORE:
             for grouped in (False, True):
                 us.append(_u('hist/core/n5/%s/%s' % ('grouped' if grouped else 'single', _short(k)), (),
                              n=5, alphabet=CORE, prefix=(k,), grouped=grouped, dom=4, weight=120))
-            us.append(_u('hist/mask/n4/%s' % _short(k), (), n=4, alphabet=CORE, prefix=(k,), dom=2, masks=(23, 24), weight=60))
-            for k2 in CORE:
-                us.append(_u('hist/core/n6/%s/%s' % (_short(k), _short(k2)), (), n=6, alphabet=CORE, prefix=(k, k2), dom=3, weight=200))
+        us.append(_u('hist/mask/n4', (), n=4, alphabet=CORE, dom=2, masks=(23, 24), weight=80))
+        for k in MINI:
+            us.append(_u('hist/mini/n6/%s' % _short(k), (), n=6, alphabet=MINI, prefix=(k,), dom=2, weight=105))
     return us
